@@ -412,6 +412,8 @@ def evaluate__cast_expressions(self: XPathToken, context: ta.ContextType = None)
                     raise self.error('XPTY0004', "Non literal string to QName cast")
 
             token = token_class(self.parser)
+            if isinstance(arg, UntypedAtomic) and local_name not in ('untypedAtomic', 'QName'):
+                arg = arg.value  # cast from the string value, as the constructor functions do
             value = token.cast(arg)
 
     except ElementPathError:
